@@ -46,6 +46,17 @@ def run_case(case: Dict[str, Any]) -> CaseResult:
         with ex0:
             b.dag.setup()
         pre = {s: R0.values[s] for s in M.sites if M.spec[s].get("setup")}
+    if case.get("exec_first"):
+        # the original has been run through an executor with arguments of its own before compose() is called
+        ex0 = sched.Exec("free")
+        ex0.op = 1
+        try:
+            with ex0:
+                b.dag.executor()(*[prog.dec(a) for a in case["exec_first"]])
+        except Exception:  # noqa: BLE001 - not what this check judges
+            pass
+        pre = {s: R0.values[s] for s in M.sites if M.spec[s].get("setup")}
+        res.cls("executor-run-before-compose")
     before = dump(b.dag)
     vals = [prog.dec(v) for v in case["vals"]]
     E = cr.compose_expect(P, M, case["inputs"], case["outputs"], vals, pre, single=case.get("single", False),
@@ -227,7 +238,23 @@ def cases(draw: Any, tier: str) -> Dict[str, Any]:
             if first_use[fn] == name:
                 opts.append("fn")
             forms[name] = draw(st.sampled_from(opts))
+    byobj = [n for n, f in forms.items() if f in ("fn", "node")]
+    if byobj and draw(st.sampled_from([True, False, False])):
+        # another site carries a TAG spelled like the id of a node that is passed as an object (node / decorated
+        # function): objects denote themselves, whatever tags exist (string aliases all go through site tags here)
+        bname = draw(st.sampled_from(byobj))
+        bfn = [s for s in P["body"] if s["site"] == bname][0]["fn"]
+        others = [s for s in P["body"] if s["site"] != bname]
+        if others:
+            a = draw(st.sampled_from(others))
+            a["tags"] = list(a.get("tags") or []) + [P["fns"][bfn].get("qual", bfn)]
+            for n in forms:
+                if forms[n] == "id":
+                    forms[n] = "tag"
+            case["shadow_tag"] = True
     case["forms"] = forms
+    # an executor run with its own arguments before composing: compose must still see the original's defaults only
+    case["exec_first"] = draw(st.sampled_from([None, None, [prog.enc(draw(st.sampled_from([7, "z"]))), prog.enc(draw(st.sampled_from([8, "y"])))]]))
     case["as_async"] = draw(st.sampled_from([None, None, False, True]))
     if ins and draw(st.integers(0, 11)) == 0:
         # ambiguous alias: a group tag carried by two sites replaces one input alias
